@@ -58,6 +58,7 @@ func (r *registrar) QueryServantBySet(ctx context.Context, id, set string) ([]re
 type phase struct {
 	from, to time.Duration
 	mode     string // healthy | silent | refusing | flaky | late
+	noticeAt time.Duration // the server sends the reconnect notification on its connections then (0 = never)
 }
 
 type node struct {
@@ -103,6 +104,7 @@ type S struct {
 	samples    []sample
 	reg        *registrar
 	prx        *tars.ServantProxy
+	prxs       []*tars.ServantProxy
 	timeout    int
 	checkMs    int
 	finished   bool
@@ -173,7 +175,14 @@ func (s *S) Run(c *scen.Ctx) {
 			t += time.Duration(1+simrt.Draw(40, "c15.gap")) * time.Second
 			d := []time.Duration{2 * time.Second, 4 * time.Second, 6 * time.Second, 12 * time.Second, 33 * time.Second, 45 * time.Second, 70 * time.Second, 100 * time.Second}[simrt.Draw(8, "c15.dur")]
 			mode := []string{"silent", "refusing", "silent", "flaky", "late"}[simrt.Draw(5, "c15.mode")]
-			n.phases = append(n.phases, phase{t, t + d, mode})
+			ph := phase{from: t, to: t + d, mode: mode}
+			if (mode == "silent" || mode == "late") && d >= 12*time.Second && simrt.Draw(3, "c15.notice") == 2 {
+				// the unresponsive server announces a restart on the connections it still holds: the
+				// client replaces its connection; the endpoint stays blocked until a probe is answered
+				ph.noticeAt = t + time.Duration(7+simrt.Draw(int(d/time.Second)-8, "c15.noticeat"))*time.Second
+				c.Count("fault.reconnect_notice_from_blocked_endpoint", 1)
+			}
+			n.phases = append(n.phases, ph)
 			c.Count("fault.phase_"+mode, 1)
 			t += d
 		}
@@ -250,6 +259,13 @@ func (s *S) Run(c *scen.Ctx) {
 					}
 				}
 				simrt.Event("%s becomes %s", n.addr, p.mode)
+				if p.noticeAt > 0 {
+					simrt.Sleep(p.noticeAt - simrt.Elapsed())
+					for _, sc := range n.srv.ConnList() {
+						sc.Reply(&refcodec.Response{Version: 1, RequestID: 0, ResultDesc: "_reconnect_", Status: map[string]string{}})
+					}
+					simrt.Event("%s sends the reconnect notification", n.addr)
+				}
 				simrt.Sleep(p.to - simrt.Elapsed())
 				if p.mode == "refusing" {
 					simnet.SetRefuse(n.addr, false)
@@ -308,7 +324,7 @@ func (s *S) Run(c *scen.Ctx) {
 			}
 		})
 	}
-	if !s.hashMode && !s.mgrMode && simrt.Draw(3, "c15.registry") == 0 {
+	if !s.mgrMode && simrt.Draw(3, "c15.registry") == 0 {
 		// the registry's answer changes (weights only, membership and weight type stay) while
 		// the client refreshes on the same ticker grid as its status check: every change
 		// makes the next refresh rebuild the selectors concurrently with checkStatus
@@ -372,7 +388,25 @@ func (s *S) Run(c *scen.Ctx) {
 			}
 		})
 	}
-	s.prx = world.Proxy(comm, "App.Srv.Obj")
+	// the application may create its first two proxy objects for the servant at the same moment
+	// (two components starting up): they share one endpoint manager, whichever came first
+	s.prxs = nil
+	if simrt.Draw(3, "c15.twoproxies") == 2 {
+		done := make(chan struct{})
+		var other *tars.ServantProxy
+		simrt.GoNamed("otherproxy", func() {
+			other = world.Proxy(comm, "App.Srv.Obj")
+			close(done)
+		})
+		s.prx = world.Proxy(comm, "App.Srv.Obj")
+		<-done
+		simrt.Sleep(0)
+		s.prxs = []*tars.ServantProxy{s.prx, other}
+		c.Count("probe.two_proxies_created_concurrently", 1)
+	} else {
+		s.prx = world.Proxy(comm, "App.Srv.Obj")
+		s.prxs = []*tars.ServantProxy{s.prx}
+	}
 	// monitor: samples the rotation once per simulated 250ms
 	stop := make(chan struct{})
 	simrt.GoNamed("monitor", func() {
@@ -460,7 +494,7 @@ func (s *S) Run(c *scen.Ctx) {
 		if someOneWay && simrt.Draw(4, "c15.oneway") == 3 {
 			ctype, cr.oneway = 1, true
 		}
-		err := s.prx.TarsInvoke(ctx, ctype, "echo", payload, nil, nil, &rsp)
+		err := s.prxs[k%len(s.prxs)].TarsInvoke(ctx, ctype, "echo", payload, nil, nil, &rsp)
 		cancelCall()
 		cr.t1 = simrt.Elapsed()
 		cr.activeT1 = s.activeNow()
@@ -664,6 +698,17 @@ func (s *S) Check(c *scen.Ctx, res *simrt.Result) {
 				if !wasIn && now {
 					c.Count("probe.endpoint_back_in_rotation", 1)
 					failsSince, streak = 0, 0
+					// only an answered probe brings a blocked endpoint back: some two-way call to it
+					// has returned without error since it left the rotation
+					answered := false
+					for _, x := range s.calls {
+						if x.host == n.host && x.err == nil && !x.oneway && x.t1 >= outSince && x.t1 <= ob[oi].t {
+							answered = true
+						}
+					}
+					if !answered && outSince >= 0 {
+						c.Fail(s.propID(), "reinstated-without-answered-probe", "checkStatus", "endpoint %s left the rotation at %v and was back in it at %v although no call to it had been answered in between (server state then: %s)", n.host, outSince, ob[oi].t, n.modeAt(ob[oi].t))
+					}
 				}
 				wasIn = now
 				oi++
